@@ -21,7 +21,7 @@ positions), operand ranks (1..3,1..3) in the quick tier, up to 4 in the thorough
 {1,2,3,V,V+1} (V = SIMD width of the type under the ISA) with *distinct extents on distinct free indices*, so that a
 transposed result cannot have the right type by accident; patterns with more free indices than that set has members draw
 the missing extents from 4,5,6,...; patterns whose smallest admissible instance exceeds the size budget (loop nest
-> LOOPS iterations or > OUT result elements or product table > 8192 entries: e.g. outer products with >= 7 free indices)
+> LOOPS iterations or > OUT result elements or product table > 4096 entries: e.g. outer products with >= 7 free indices)
 are not generated (counted in evidence_extra).  Index *labels* are arbitrary numbers (the explicit-output form sorts by
 label value), so half of the cases use a random injective relabelling.
 
@@ -32,7 +32,8 @@ Families (case id = C03/<family>/<type>/<L0>,<L1>[-><O>]/<extents>/<cfg>):
                                  multiple of the 128-bit vector width of the type (loop nest stays scalar)
   <api>-diag-blastv              same, extent a multiple of the 128-bit width (the loop nest vectorises along that axis)
   einsum-diag-disp, explicit-diag-disp   a list with an internal repeat whose head/tail matches the other list the way a
-                                 generalised matrix-vector / vector-matrix / matrix-matrix pattern does (dispatch_like())
+                                 generalised matrix-vector / vector-matrix / matrix-matrix pattern does (dispatch_like());
+                                 -disp1: the same with extent 1 on every internally repeated index (degenerate diagonal)
   explicit                       einsum<..,..,OIndex<..>>, permutations of the free indices sampled (C++17-only API)
   inner, outer                   inner(a,b), outer(a,b), dyadic(a,b)
   single, single-contraction, single-explicit, inner1     one-operand forms (LIN)
@@ -59,7 +60,7 @@ LEVEL_NOTE = ('per instantiation (index pattern, extents, type, API form, ISA, s
               'written + frame + memory safety, for all element values; patterns and extents enumerated / sampled')
 
 SKIPPED = {'quick': 0, 'thorough': 0}
-BIG = 220
+BIG = 120
 
 # ------------------------------------------------------------------------------------------------------------------
 # index patterns
@@ -111,7 +112,9 @@ def diag_class(L0, L1, ext, ty, api):
     if api in ('einsum', 'explicit'):
         d = dispatch_like(L0, L1)
         if d == 'oob': return '-diag-rej'
-        if d: return '-diag-disp'
+        if d:
+            rep = [l for L in (L0, L1) for l in set(L) if list(L).count(l) == 2]
+            return '-diag-disp' if any(ext[l] > 1 for l in rep) else '-diag-disp1'
     if len(L1) and L1[-1] in L1[:-1]:
         w128 = 128 // ty.bits
         return '-diag-blastv' if ext[L1[-1]] % w128 == 0 else '-diag-blast'
@@ -125,7 +128,7 @@ def pool_for(isa, ty):
         if x not in p: p.append(x)
     return p
 
-def choose_extents(rng, L0, L1, isa, ty, loops, outmax, force=None):
+def choose_extents(rng, L0, L1, isa, ty, loops, outmax, force=None, terms=10 ** 9, relax=1):
     """extent per label: distinct on distinct free indices, from {1,2,3,V,V+1} (extended by 4,5,6.. when more are needed)."""
     free, contracted = analyse(L0, L1)
     pool = pool_for(isa, ty)
@@ -134,11 +137,12 @@ def choose_extents(rng, L0, L1, isa, ty, loops, outmax, force=None):
     while len(fpool) < len(free):
         if x not in fpool: fpool.append(x)
         x += 1
-    def ok(ext):
+    def ok(ext, relax=1):
         n0 = prod(ext[l] for l in L0); n1 = prod(ext[l] for l in L1) if L1 is not None and len(L1) else 1
         tot = prod(ext[l] for l in set(list(L0) + list(L1)))
         no = prod(ext[l] for l in free)
-        return tot <= loops and no <= outmax and n0 * n1 <= 8192 and n0 <= 2048 and n1 <= 2048
+        nt = prod(ext[l] for l in contracted)
+        return tot <= loops * relax and no <= outmax * relax and nt <= terms and n0 * n1 <= 4096 and n0 <= 600 and n1 <= 600
     for _ in range(300):
         ext = {}
         for l, e in zip(free, rng.sample(fpool, len(free))): ext[l] = e
@@ -146,7 +150,7 @@ def choose_extents(rng, L0, L1, isa, ty, loops, outmax, force=None):
         if force: ext.update(force)
         if len({ext[l] for l in free}) != len(free): continue
         if ok(ext): return ext
-    # smallest admissible instance
+    # smallest admissible instance (patterns with many free indices: the budget is relaxed by `relax` for these only)
     ext = {}
     small = sorted(fpool)[:len(free)]
     rng.shuffle(small)
@@ -155,7 +159,7 @@ def choose_extents(rng, L0, L1, isa, ty, loops, outmax, force=None):
     if force:
         ext.update(force)
         if len({ext[l] for l in free}) != len(free): return None
-    return ext if ok(ext) else None
+    return ext if ok(ext, relax) else None
 
 def relabel(rng, L0, L1, on):
     labs = sorted(set(list(L0) + list(L1)))
@@ -300,7 +304,7 @@ def cases(tier, seed):
     types = [INT, FLT, DBL]
     ISAS = isas(tier)
     R = 4 if thorough else 3
-    LOOPS, OUT = (400, 300) if thorough else (160, 100)
+    LOOPS, OUT, TERMS, RELAX = (240, 200, 40, 3.2) if thorough else (100, 64, 24, 2)
     skipped = 0
     combos = [(ty, isa) for isa in ISAS for ty in types]
     rot = [0]
@@ -320,7 +324,7 @@ def cases(tier, seed):
 
     def add_pair(L0, L1, api, ty, isa, std, macros=(), O='auto', kinds=('own', 'own'), relab=None, force=None):
         nonlocal skipped
-        ext = choose_extents(rng, L0, L1, isa, ty, LOOPS, OUT, force)
+        ext = choose_extents(rng, L0, L1, isa, ty, LOOPS, OUT, force, TERMS, RELAX)
         if ext is None: skipped += 1; return
         lab = relabel(rng, L0, L1, rng.random() < 0.5 if relab is None else relab)
         free, _ = analyse(L0, L1)
@@ -332,14 +336,12 @@ def cases(tier, seed):
             out.append(pair_case(ty, L0, L1, ext, lab, Cfg(isa, std, macros=macros), api, None, kinds))
 
     # --- einsum / contraction on every pattern -------------------------------------------------------------------
-    reps_e = 2
-    for (L0, L1) in between:
-        for _ in range(reps_e):
-            ty, isa = next_combo(); add_pair(L0, L1, 'einsum', ty, isa, std_for())
-    for (L0, L1) in (between if thorough else sample(rng, between, 50)):
+    for (L0, L1) in between + sample(rng, between, 250 if thorough else 45):
+        ty, isa = next_combo(); add_pair(L0, L1, 'einsum', ty, isa, std_for())
+    for (L0, L1) in sample(rng, between, 300 if thorough else 40):
         ty, isa = next_combo(); add_pair(L0, L1, 'contraction', ty, isa, std_for())
     # an index repeated within one list (diagonal of that operand); the sub-family is decided by diag_class()
-    dsel = sample(rng, diag, 450 if thorough else 36)
+    dsel = sample(rng, diag, 300 if thorough else 30)
     for (L0, L1) in dsel:
         ty, isa = next_combo(); add_pair(L0, L1, 'einsum', ty, isa, std_for())
         ty, isa = next_combo(); add_pair(L0, L1, 'contraction', ty, isa, std_for())
@@ -352,10 +354,12 @@ def cases(tier, seed):
     # internal repeat + head/tail match of the two lists (shape of a generalised matrix-vector / vector-matrix / matrix-matrix product)
     disp = [p for p in diag if dispatch_like(*p)]
     for (L0, L1) in sample(rng, disp, 80 if thorough else 6):
-        ty, isa = next_combo(); add_pair(L0, L1, 'einsum', ty, isa, std_for())
+        ty, isa = next_combo()
+        rep = [l for L in (L0, L1) for l in set(L) if list(L).count(l) == 2]
+        add_pair(L0, L1, 'einsum', ty, isa, std_for(), force={rep[0]: rng.choice([2, 3])})
     # --- explicit output order (C++17) ---------------------------------------------------------------------------
     esel = [p for p in between if len(analyse(*p)[0]) >= 1]
-    esel = sample(rng, esel, 300 if thorough else 32)
+    esel = sample(rng, esel, 220 if thorough else 28)
     for (L0, L1) in esel:
         free, _ = analyse(L0, L1)
         for O in perms_sample(rng, free, 2 if thorough else 1) + ([tuple(free)] if rng.random() < 0.2 else []):
@@ -367,7 +371,7 @@ def cases(tier, seed):
     # compiler for many instantiations on the unchanged tree (-2: always, Index<>::NoIndices; -1/-3: 'unknown type name V' under
     # FASTOR_DONT_VECTORISE, -3: static_assert on reductions / constexpr index -1): generated only with C03_INCLUDE_REJECTED=1
     for opt in (1, 2) + ((-1, -2, -3) if INCLUDE_REJECTED else ()):
-        sel = sample(rng, between, 40 if thorough else 12)
+        sel = sample(rng, between, 40 if thorough else 10)
         for (L0, L1) in sel:
             free, _ = analyse(L0, L1)
             ty, isa = next_combo()
@@ -382,10 +386,12 @@ def cases(tier, seed):
         for ty in types:
             V = vec_elems(isa, ty)
             shapes = [(), (1,), (V,), (V + 1,), (2 * V + 3,), (2, 3), (3, V + 1), (2, 3, V), (2, 2, 3, 2)]
+            shapes = [x for x in shapes if prod(x) <= TERMS]
             for shp in (shapes if thorough else sample(rng, shapes, 3)):
                 out.append(inner_case(ty, list(shp), Cfg(isa, std_for())))
             opairs = [((3,), ()), ((), (3,)), ((2,), (V,)), ((V,), (3,)), ((V + 1,), (2 * V + 1,)), ((2, 3), (V,)), ((3,), (2, V + 1)),
                       ((2, 3), (V, 5)), ((2, 3, 1), (V + 1,)), ((2,), (3, 1, V)), ((1, 2), (V + 1,)), ((3,), (1, 1))]
+            opairs = [x for x in opairs if prod(x[0]) * prod(x[1]) <= (4 * OUT if thorough else 2 * OUT)]
             for (s0, s1) in (opairs if thorough else sample(rng, opairs, 3)):
                 out.append(outer_case(ty, list(s0), list(s1), Cfg(isa, std_for())))
             if INCLUDE_REJECTED:     # an operand of type Tensor<T,1>: see the module docstring
@@ -393,8 +399,8 @@ def cases(tier, seed):
                     out.append(outer_case(ty, list(s0), list(s1), Cfg(isa, 'c++14'), api='outer', fam='outer-ext1'))
                 out.append(outer_case(ty, [], [], Cfg(isa, 'c++14'), api='outer', fam='outer-scalar'))
             if thorough or isa == 'avx2':
-                out.append(inner_case(ty, [3, V + 1], Cfg(isa, 'c++14'), kinds=('expr', 'own')))
-                out.append(inner_case(ty, [2 * V + 1], Cfg(isa, 'c++14'), kinds=('own', 'map')))
+                out.append(inner_case(ty, [3, min(V, 4) + 1], Cfg(isa, 'c++14'), kinds=('expr', 'own')))
+                out.append(inner_case(ty, [V + 1], Cfg(isa, 'c++14'), kinds=('own', 'map')))
                 out.append(outer_case(ty, [3], [V + 1], Cfg(isa, 'c++14'), kinds=('expr', 'own')))
                 out.append(outer_case(ty, [2, 3], [V], Cfg(isa, 'c++14'), api='dyadic'))
     # --- single-operand forms (linear) ------------------------------------------------------------------------------
@@ -403,7 +409,7 @@ def cases(tier, seed):
         for api in ('einsum', 'contraction'):
             for _ in range(2 if thorough else 1):
                 ty, isa = next_combo()
-                ext = choose_extents(rng, L0, (), isa, ty, LOOPS, OUT)
+                ext = choose_extents(rng, L0, (), isa, ty, LOOPS, OUT, None, TERMS, RELAX)
                 if ext is None: skipped += 1; continue
                 lab = relabel(rng, L0, (), rng.random() < 0.5)
                 kind = 'own' if rng.random() < 0.8 else 'expr'
@@ -412,14 +418,14 @@ def cases(tier, seed):
         if free:
             for O in perms_sample(rng, free, 2 if thorough else 1):
                 ty, isa = next_combo()
-                ext = choose_extents(rng, L0, (), isa, ty, LOOPS, OUT)
+                ext = choose_extents(rng, L0, (), isa, ty, LOOPS, OUT, None, TERMS, RELAX)
                 if ext is None: skipped += 1; continue
                 lab = relabel(rng, L0, (), rng.random() < 0.5)
                 out.append(single_case(ty, L0, ext, lab, Cfg(isa, 'c++17'), 'explicit', O))
     for isa in ISAS:
         for ty in (types if thorough else [rng.choice(types)]):
             V = vec_elems(isa, ty)
-            for (N, rank) in [(1, 0), (2 * V + 1, 1), (3, 2), (min(V, 4), 3)]:
+            for (N, rank) in [(1, 0), (min(2 * V + 1, TERMS), 1), (3, 2), (min(V, 4), 3)]:
                 out.append(inner1_case(ty, N, rank, Cfg(isa, 'c++14')))
     SKIPPED[tier] = skipped
     seen = set(); res = []
